@@ -534,3 +534,13 @@ package j5schema
 //@   |   && (ext.list != nil && typeis(ext.list.Type, *list_j5pb.FieldConstraint_Float) ==> as(*schema_j5pb.Field_Float, result0).Float.ListRules == as(*list_j5pb.FieldConstraint_Float, ext.list.Type).Float)
 //@   ensures double.list: result1 == nil && fdKind(src) == 1 ==> typeis(result0, *schema_j5pb.Field_Float) && as(*schema_j5pb.Field_Float, result0).Float.Format == schema_j5pb.FloatField_FORMAT_FLOAT64
 //@   |   && (ext.list != nil && typeis(ext.list.Type, *list_j5pb.FieldConstraint_Double) ==> as(*schema_j5pb.Field_Float, result0).Float.ListRules == as(*list_j5pb.FieldConstraint_Double, ext.list.Type).Double)
+
+// ---- flattening (C18, C01): a property lifted out of a flattened message is addressed through that message ----------
+// Its proto field path is the path of the flattened field followed by its own path — also when its own
+// path is empty (an exposed oneof, which lives in the flattened message, not in the outer one).
+//@ func (*ObjectProperty).nestedClone
+//@   requires prop != nil
+//@   ensures path: result != nil && len(result.ProtoField) == len(inParent) + len(prop.ProtoField)
+//@   |   && (forall i int {result.ProtoField[i]} :: 0 <= i && i < len(inParent) ==> result.ProtoField[i] == inParent[i])
+//@   |   && (forall j int {prop.ProtoField[j]} :: 0 <= j && j < len(prop.ProtoField) ==> result.ProtoField[len(inParent) + j] == prop.ProtoField[j])
+//@   ensures kept: result.Schema == prop.Schema && result.JSONName == prop.JSONName && result.Required == prop.Required && result.ExplicitlyOptional == prop.ExplicitlyOptional && result.Parent == prop.Parent
